@@ -55,6 +55,18 @@ func runC07(cases string, res *Result) {
 		name := []string{"escape", "e"}[i%2]
 		reg("ab_esc_"+bp[0], "{% apply "+name+" %}"+bp[1]+"{% endapply %}")
 	}
+	// both names inside a sandboxed include, under the library's default security policy
+	sbeng := twig.New()
+	sbeng.EnableSandbox(twig.NewDefaultSecurityPolicy())
+	for n, src := range map[string]string{"in_e": "{{ v|e }}", "in_escape": "{{ v|escape }}", "in_chain_e": "{{ v|raw|e }}", "in_chain_escape": "{{ v|raw|escape }}",
+		"in_set_e": "{% set w = v|e %}{{ w }}", "in_set_escape": "{% set w = v|escape %}{{ w }}", "in_if_e": "{% if v|e is defined %}{{ v|e }}{% endif %}", "in_if_escape": "{% if v|escape is defined %}{{ v|escape }}{% endif %}",
+		"sb_e": "{% include 'in_e' sandboxed %}", "sb_escape": "{% include 'in_escape' sandboxed %}", "sb_chain_e": "{% include 'in_chain_e' sandboxed %}", "sb_chain_escape": "{% include 'in_chain_escape' sandboxed %}",
+		"sb_set_e": "{% include 'in_set_e' sandboxed %}", "sb_set_escape": "{% include 'in_set_escape' sandboxed %}", "sb_if_e": "{% include 'in_if_e' sandboxed %}", "sb_if_escape": "{% include 'in_if_escape' sandboxed %}"} {
+		if err := sbeng.RegisterString(n, src); err != nil {
+			panic(err)
+		}
+	}
+	sandboxed := [][2]string{{"sb_e", "sb_escape"}, {"sb_chain_e", "sb_chain_escape"}, {"sb_set_e", "sb_set_escape"}, {"sb_if_e", "sb_if_escape"}}
 	all := []string{"p_e", "p_escape", "chain", "apply", "macro", "include", "cond", "chainarg", "chainarg2"}
 	few := []string{"p_e", "p_escape"}
 
@@ -162,6 +174,20 @@ func runC07(cases string, res *Result) {
 		}
 		got, err := fallback(in)
 		check("fallback", expfb, got, err)
+		if stream != "exhaustive2" {
+			for _, pr := range sandboxed {
+				res.Hist["position:sandboxed-include"]++
+				ge, ee := sbeng.Render(pr[0], ctx)
+				gs, es := sbeng.Render(pr[1], ctx)
+				res.Evaluations += 2
+				if (ee == nil) != (es == nil) || ge != gs {
+					res.add(Finding{Kind: "oracle", Where: pr[0] + " / " + pr[1], Case: c, Expected: fmt.Sprintf("%s (err=%v)", hx(gs), es), Observed: fmt.Sprintf("%s (err=%v)", hx(ge), ee),
+						Detail: "e and escape behave differently inside a sandboxed include under the default security policy"})
+				} else if ee == nil {
+					check(pr[0], exp, ge, nil)
+				}
+			}
+		}
 		// the value inside containers: the filter sees the container's text form (whatever it is: the engine's own
 		// conversion, read off an unfiltered print), and escapes all of it
 		if vk := c.str("vkind"); (vk != "" || stream == "fixed" || stream == "exhaustive1") && in != "" {
